@@ -86,7 +86,8 @@ def run(ctx):
     mc = flowcheck.model_check("C07", ctx.tier)
     cert = simple_cert("c1", ids=[{"dns": "a.example.org", "challenge": "http-01"}, {"dns": "b.example.org", "challenge": "dns-01"}])
     pos, _ = flows.baseline_positions("C07/base", [flowcheck.prepare(dict(certs=[cert]))["certs"][0]])
-    specs = flows.single_fault_specs("C07", cert, pos, ctx.tier, ctx.seed, attempts=2, quick_stride=7, pre_modes=("none",))
+    specs = flows.single_fault_specs("C07", cert, pos, ctx.tier, ctx.seed, attempts=2, quick_stride=7, pre_modes=("none",),
+                                     dense_kinds=tuple({k for k, _, m in pos if m == "POST"}), dense_cells=[("none", False)])
     specs += flows.multi_fault_specs("C07", cert, pos, 300 if ctx.tier == "thorough" else 30, ctx.seed + 1, attempts=3)
     specs += hook_exit_specs(ctx.tier, ctx.seed)
     specs += fault_and_hook_specs(ctx.tier, ctx.seed, pos)
@@ -106,7 +107,7 @@ def run(ctx):
            "model": mc, "trace_validation": stats, "families": fam, "attempts_observed": attempts, "failed_attempts_observed": failed,
            "model_fidelity": {"all_labels_clean": not fb, "bad": [({k: v for k, v in results[i]["meta"].items() if k not in ("flow", "healthy")}, l) for i, l, _ in fb[:5]]},
            "exhaustive": False,
-           "rule": "single faults at every request position (2 attempts each: the pause is measured in virtual time between AttemptEnd(fail) and the next "
+           "rule": "single faults at every request position (quick: every ACME error type at every POST position answered once, the other faults as a rotating 1/7 sample; 2 attempts each: the pause is measured in virtual time between AttemptEnd(fail) and the next "
                    "AttemptStart), random multi-fault runs over 3 attempts, every hook position x exit code/signal x allow_failure, 1..6 certificates on one "
                    "account and endpoint with failing subsets (healthy ones must be issued)"}
     return {"coverage": cov, "assumptions": [
